@@ -19,6 +19,10 @@ func init() {
 			{Name: "obfs4", Pkg: "./pkg/transports/wrapping/obfs4", Run: "^TestVerifC11Params$", Drivers: []string{"obfs4"}, TimeoutQ: 10 * time.Minute, TimeoutT: 40 * time.Minute},
 			{Name: "prefix", Pkg: "./pkg/transports/wrapping/prefix", Run: "^TestVerifC11Params$", Drivers: []string{"prefix"}, TimeoutQ: 10 * time.Minute, TimeoutT: 40 * time.Minute},
 			{Name: "cdtls", Pkg: "./pkg/transports/connecting/dtls", Run: "^TestVerifC11Params$", Drivers: []string{"cdtls"}, Exports: []string{"dnat"}, Netns: true, TimeoutQ: 10 * time.Minute, TimeoutT: 40 * time.Minute},
+			{Name: "transports", Pkg: "./pkg/transports", Run: "^TestVerifC11Transports$", Drivers: []string{"transports"}, TimeoutQ: 10 * time.Minute, TimeoutT: 40 * time.Minute},
+			{Name: "msgformat", Pkg: "./pkg/registrars/dns-registrar/msgformat", Run: "^TestVerifC11Msgformat$", Drivers: []string{"msgformat"}, TimeoutQ: 10 * time.Minute, TimeoutT: 40 * time.Minute},
+			{Name: "dns", Pkg: "./pkg/registrars/dns-registrar/dns", Run: "^TestVerifC11DNSWire$", Drivers: []string{"dns"}, TimeoutQ: 10 * time.Minute, TimeoutT: 40 * time.Minute},
+			{Name: "responder", Pkg: "./pkg/registrars/dns-registrar/responder", Run: "^TestVerifC11Responder$", Drivers: []string{"responder"}, TimeoutQ: 10 * time.Minute, TimeoutT: 40 * time.Minute},
 		},
 	})
 }
